@@ -734,17 +734,36 @@ func runEngVariant(prop string) runner {
 					if q.chance(1, 4) {
 						s.CancelAt = q.intn(12)
 					}
-					if q.chance(1, 5) {
-						// a FetchMatchingRules call in between
-						dc := ast.NewDataContext()
-						dc.Add("F", s.Fact.clone())
-						dc.Add("N", s.N)
-						(&engine.GruleEngine{MaxCycle: 5}).FetchMatchingRules(dc, kb)
-						rep.count("history: fetch between executes")
+					fetchMsg := ""
+					if q.chance(1, 3) {
+						// a FetchMatchingRules call in between: on the used instance it must name the rules a fresh instance names
+						names := func(k *ast.KnowledgeBase) (string, error) {
+							dc := ast.NewDataContext()
+							dc.Add("F", s.Fact.clone())
+							dc.Add("N", s.N)
+							res, err := (&engine.GruleEngine{MaxCycle: 5}).FetchMatchingRules(dc, k)
+							var ns []string
+							for _, e := range res {
+								ns = append(ns, e.RuleName)
+							}
+							sort.Strings(ns)
+							return strings.Join(ns, ","), err
+						}
+						got, gerr := names(kb)
+						if fresh, err := lib.NewKnowledgeBaseInstance("Eng", "1"); err == nil {
+							want, werr := names(fresh)
+							if got != want || (gerr == nil) != (werr == nil) {
+								fetchMsg = fmt.Sprintf("FetchMatchingRules before call %d of a history on one instance returns [%s] (err %v); on a fresh instance of the same knowledge base and the same facts [%s] (err %v)", c+1, got, gerr, want, werr)
+							}
+						}
+						rep.count("history: fetch between executes (compared with a fresh instance)")
 					}
 					f := s.Fact.clone()
 					obs := runEngOn(kb, s, f, s.CancelAt < 0, fe)
 					obs.Snaps = snaps
+					if fetchMsg != "" {
+						obs.OracleMsg = fetchMsg
+					}
 					if obs.OracleMsg == "" && s.CancelAt < 0 {
 						obs.OracleMsg = engProtocolOracle(s, obs)
 					}
